@@ -60,4 +60,78 @@ theorem C12_front_end_total (text : List UInt8) :
 
 theorem C12_meta_grammar_terminating : wfCheck Extracted.metaGrammar {} = true := metaGrammar_wf
 
+/-! ## non-vacuity (BEGIN) -/
+namespace C12_nv
+
+/-! the escape forms of `é` (U+00E9) and of `😀` (U+1F600) -/
+example : (StringItem.hexa 'e' '9').toChar = .ok 'é' := C12_escape_x 'é' (by decide) 'e' '9' (by decide)
+example : (StringItem.utf8 (hexDigits 4 'é'.toNat)).toChar = .ok 'é' := C12_escape_u4 'é' (by decide)
+example : (StringItem.utf8 (hexDigits 6 '😀'.toNat)).toChar = .ok '😀' := C12_escape_U8 '😀'
+example : (StringItem.utf8 (hexDigits 5 '😀'.toNat)).toChar = .ok '😀' := C12_escape_braced '😀' 5 (by decide) (by decide)
+example : hexDigits 4 'é'.toNat = ['0', '0', 'e', '9'] ∧ hexDigits 6 '😀'.toNat = ['0', '1', 'f', '6', '0', '0'] ∧
+    hexDigits 5 '😀'.toNat = ['1', 'f', '6', '0', '0'] := by decide
+example : (StringItem.simple .tab).toChar = .ok '\t' := C12_escape_simple .tab
+example : (StringItem.utf8 ['d', '8', '0', '0']).toChar = .err "Invalid utf-8 codepoint" :=
+  C12_escape_invalid _ 0xD800 (by decide) (.inl ⟨by decide, by decide⟩)
+example : (StringItem.utf8 ['1', '1', '0', '0', '0', '0']).toChar = .err "Invalid utf-8 codepoint" :=
+  C12_escape_invalid _ 0x110000 (by decide) (.inr (by decide))
+
+/-! directives: a rule with three flags and two checks, permuted / duplicated / interleaved -/
+def r0 : Rule := ⟨[], "A", .eoi⟩
+def ds : List Directive := [.check ["f"], .memoize, .string, .check ["m", "g"], .position]
+def ds' : List Directive := [.position, .check ["m", "g"], .memoize, .check ["f"], .string]
+theorem ds_perm : ds.Perm ds' := by decide
+example : ({ r0 with directives := ds }).flags = ({ r0 with directives := ds' }).flags := C12_directive_order r0 ds_perm
+example : ({ r0 with directives := ds }).flags = { string := true, position := true, memoize := true } := by decide
+example : ({ r0 with directives := .memoize :: .memoize :: ds }).flags = ({ r0 with directives := .memoize :: ds }).flags :=
+  C12_directive_duplicates r0 .memoize ds
+def xs : List Directive := [.check ["f"]]
+def ys : List Directive := [.string, .check ["m", "g"], .position]
+example : ({ r0 with directives := xs ++ Directive.memoize :: ys }).checks = ({ r0 with directives := xs ++ ys }).checks :=
+  C12_checks_order r0 .memoize rfl xs ys
+example : ({ r0 with directives := ds }).checks = [["f"], ["m", "g"]] := by decide
+
+/-! the front end on a two-rule text with directives, a closure over a choice, a named field and a `\u` escape:
+    `@check(f)@memoize @check(m::g) A={'a'|x:B}; B='é';` -/
+def txt : List UInt8 :=
+  [64, 99, 104, 101, 99, 107, 40, 102, 41, 64, 109, 101, 109, 111, 105, 122, 101, 32, 64, 99, 104, 101, 99, 107, 40, 109,
+   58, 58, 103, 41, 32, 65, 61, 123, 39, 97, 39, 124, 120, 58, 66, 125, 59, 32, 66, 61, 39, 92, 117, 48, 48, 101, 57, 39, 59]
+example : String.ofList (txt.map fun b => Char.ofNat b.toNat) = "@check(f)@memoize @check(m::g) A={'a'|x:B}; B='\\u00e9';" := by
+  decide +kernel
+
+def isExpected : FrontEnd.Outcome → Bool
+  | .grammar ⟨[.rule ⟨da, na, .choice [.seq [.closure (.choice [.seq [.lit false [.chr 'a']],
+                                                             .seq [.field (some (.ident x)) false b]]) false]]⟩,
+               .rule ⟨db, nb, .choice [.seq [.lit false [.utf8 digits]]]⟩]⟩ =>
+    da == [.check ["f"], .memoize, .check ["m", "g"]] && na == "A" && x == "x" && b == "B" && db == [] && nb == "B" &&
+    digits == ['0', '0', 'e', '9']
+  | _ => false
+theorem txt_parsed : isExpected (FrontEnd.parse 80 txt) = true := by decide +kernel
+
+/-- `C12_conformance`, grammar case, instantiated: the premise `FrontEnd.parse 80 txt = .grammar g` holds -/
+example : ∃ g, FrontEnd.parse 80 txt = .grammar g ∧
+    ∃ m v s, Spec.parse FrontEnd.metaEnv 0 m "Grammar" txt = some (.ok v s) ∧ FrontEnd.toGrammar 80 v = some g := by
+  have h := txt_parsed
+  cases hp : FrontEnd.parse 80 txt with
+  | grammar g => exact ⟨g, rfl, (C12_conformance 80 txt).1 g hp⟩
+  | parseError e => rw [hp] at h; cases h
+  | other msg => rw [hp] at h; cases h
+/-- … and the error case on `A=` (Proofs/FrontEndProofs.lean: `textBad`, `frontend_example_error`) -/
+example : ∃ e, FrontEnd.parse 64 textBad = .parseError e ∧
+    ∃ m, Spec.parse FrontEnd.metaEnv 0 m "Grammar" textBad = some (.err Spec.noErr) := by
+  have h := frontend_example_error
+  cases hp : FrontEnd.parse 64 textBad with
+  | grammar g => rw [hp] at h; cases h
+  | parseError e => exact ⟨e, rfl, (C12_conformance 64 textBad).2 e hp⟩
+  | other msg => rw [hp] at h; cases h
+/-- the error is reported at offset 2, the end of the text -/
+example : (match FrontEnd.parse 64 textBad with | .parseError e => e.pos == 2 | _ => false) = true := by decide +kernel
+
+example : ∃ n0, ∀ n, n0 ≤ n → FrontEnd.parse n txt ≠ .other "out of fuel" := C12_front_end_total txt
+/-- fuel 64 is not enough for this text, 80 is: the bound in `C12_front_end_total` is not 0 -/
+example : (match FrontEnd.parse 64 txt with | .other m => m == "out of fuel" | _ => false) = true := by decide +kernel
+
+end C12_nv
+/-! ## non-vacuity (END) -/
+
 end Peg.Props
